@@ -806,6 +806,41 @@ def check_statements(chk):
             chk.q("Q-lia", r)
             if r != "unsat":
                 chk.violation(f"stmt:{lang}:multiindex", f"{lang}: A subscript for MultiIndex([i,j],[{e0},{e1}]) is not {e1}*i+j", None)
+    # table initialisers must read back entry by entry (nearly uniform, tiny, large-integer, one-entry N-d, uniform tables)
+    tables = [
+        ("nearly_uniform", R, np.array([0.25, 0.250001, 0.249999])),
+        ("tiny", R, np.array([1e-9, 3e-9, 8e-9])),
+        ("uniform", R, np.array([[1.0 / 6, 1.0 / 6], [1.0 / 6, 1.0 / 6]])),
+        ("one_entry_4d", R, np.array([[[[2.0 / 3]]]])),
+        ("near_one", R, np.array([1.0, 1.0 + 2.0 ** -30, 1.0 - 2.0 ** -31, 1.0])),
+        ("big_ints", I, np.array([1000000, 1000001, 1000003], dtype=np.int32)),
+        ("mixed_sign", R, np.array([[1e-7, -1e-7, 0.0], [1e-7, 1e-7 + 1e-15, -0.0]])),
+    ]
+    for tname, dt, vals in tables:
+        decl = ln.ArrayDecl(ln.Symbol("W", dt), sizes=vals.shape, values=vals, const=True)
+        code = ln.StatementList([decl])
+        texts = {"C": "void k(double* A, double* B) {\n" + cf(code) + "}\n",
+                 "numba": "def tabulate_tensor_k(A, B):\n" + "".join("    " + l + "\n" for l in nf(code).split("\n"))}
+        for lang in ("C", "numba"):
+            nfacts += 1
+            try:
+                body_ir = (cfront.parse_c(texts[lang]).kernels["k"] if lang == "C" else pyfront.parse_numba(texts[lang]).kernels["tabulate_tensor_k"]).body
+                shape, flatv = _stmt_facts(body_ir)["decl W"]
+            except Exception as e:
+                chk.inconc(f"{lang} table {tname}: front-end: {type(e).__name__}: {e}")
+                continue
+            want = [float(x) for x in vals.flatten()]
+            got = [float(x) for x in (flatv or [])]
+            if len(got) == 1 and len(want) > 1:
+                got = got * len(want)  # a fill value stands for every entry
+            ok = tuple(shape) == tuple(vals.shape) and len(got) == len(want) and all(
+                (a == b) or abs(a - b) <= 2.3e-16 * abs(b) for a, b in zip(got, want))
+            if not ok:
+                bad = next(((a, b) for a, b in zip(got, want) if not ((a == b) or abs(a - b) <= 2.3e-16 * abs(b))), None)
+                chk.violation(f"stmt:{lang}:table:{tname}", f"{lang}: ArrayDecl {tname} {want[:4]} reads back as shape {tuple(shape)} values {got[:4]} (first differing entry {bad}): more than one unit in the last place",
+                              "#!/verif/.venv/bin/python\nimport sys\nsys.path[:0]=['/verif','/repo']\nfrom vlib import fmtcheck\nfrom vlib.common import Check\n"
+                              "class P:\n    n=0\n    extra={}\n    def q(self,*a): pass\n    def inconc(self,*a): pass\n    def violation(self,k,w,s=None):\n        self.n+=1; print(k,'::',w)\n"
+                              "p=P(); fmtcheck.check_statements(p); print('REPRODUCED' if p.n else 'not reproduced'); sys.exit(1 if p.n else 0)\n")
     chk.extra["statement_facts"] = nfacts
 
 
